@@ -215,6 +215,7 @@ func (b *TemplateBuilder) WriteFile(f *os.File) {
 func actionCodeReplace(vnode *parser.RootVistor,
 	index int, pr *rules.ProductoinRule) string {
 	oneRule := vnode.GetRules(index - 1)
+	ruleIndex := index
 	//  generate the comments.
 	strComment := "\n/*\n%s*/\n"
 	leftPartString := fmt.Sprint("\nLineNo:", oneRule.LineNo, "\n") + parser.RemoveTempName(oneRule.LeftPart.Name)
@@ -227,6 +228,9 @@ func actionCodeReplace(vnode *parser.RootVistor,
 			leftPartString, rightPartString, strings.ReplaceAll(oneRule.ActionCode, "*/", "* /")))
 
 	str := oneRule.ActionCode
+	if strings.Contains(str, "$$") && pr.LeftPart.Tag == "" {
+		panic(fmt.Sprintf("rule %d: $$ of %s has no declared type", index, pr.LeftPart.Name))
+	}
 	str = strings.ReplaceAll(str, "$$",
 		fmt.Sprintf("dollarDolar.%s", pr.LeftPart.Tag))
 
@@ -235,6 +239,9 @@ func actionCodeReplace(vnode *parser.RootVistor,
 	str = reg.ReplaceAllStringFunc(str, func(s string) string {
 		index := s[1:]
 		i, _ := strconv.Atoi(index)
+		if i >= 1 && i <= len(pr.RighPart) && pr.RighPart[i-1].Tag == "" {
+			panic(fmt.Sprintf("rule %d: $%d of %s has no declared type", ruleIndex, i, pr.RighPart[i-1].Name))
+		}
 		return fmt.Sprintf("Dollar[%s].%s", index, pr.RighPart[i-1].Tag)
 	})
 	return strComment + str + "\n"
